@@ -166,8 +166,12 @@ def oracle(ck: Check, tier, deep=False):
                            image=im.tolist())
                 ck.count(("S", method, r % 2, c % 2, axname, mask), suite="S.oracle")
                 defined = ref_defined(code, mask)
+                # the mask may arrive as a tuple, a list, a NumPy boolean array (e.g. `counts > 10`) or 0/1 integers
+                kind = int(rng.integers(0, 4))
+                mask_arg = [mask, list(mask), np.array(mask), tuple(int(b) for b in mask)][kind]
+                rep["use_quadrants_type"] = ["tuple", "list", "ndarray", "ints"][kind]
                 try:
-                    Q, S = _impl_sym(im, axis, mask, method)
+                    Q, S = _impl_sym(im, axis, mask_arg, method)
                     raised = False
                 except ValueError:
                     raised = True
@@ -179,6 +183,9 @@ def oracle(ck: Check, tier, deep=False):
                                  f"quadrant {'undefined but accepted' if not raised else 'defined but rejected'}")
                     continue
                 if raised:
+                    continue
+                if np.shape(S) != im.shape:
+                    ck.violation(dict(sig, clause="shape"), rep, f"put(get(im)) has shape {np.shape(S)}, the image {im.shape}")
                     continue
                 if code == 0:
                     if not np.array_equal(S, im) and (method == "average" or np.abs(S - im).max() > tol):
@@ -223,8 +230,11 @@ def oracle_transform(ck: Check, tier):
             rep = dict(shape=[r, c], symmetry_axis=repr(axis), use_quadrants=list(mask), image=im.tolist())
             ck.count(("S.T", r, c, axname, mask), suite="S.transform-rejection")
             defined = ref_defined(code, mask)
+            kind = int(rng.integers(0, 4))
+            mask_arg = [mask, list(mask), np.array(mask), tuple(int(b) for b in mask)][kind]
+            rep["use_quadrants_type"] = ["tuple", "list", "ndarray", "ints"][kind]
             try:
-                t = quiet(abel.Transform, im, method="two_point", symmetry_axis=axis, use_quadrants=mask,
+                t = quiet(abel.Transform, im, method="two_point", symmetry_axis=axis, use_quadrants=mask_arg,
                           transform_options=dict(basis_dir=None)).transform
                 raised = False
             except ValueError:
